@@ -55,7 +55,17 @@ pub enum Ev {
     Restore { dst: u8, flag: u8 },
     /// Part B: restore `new_rows` generation-2 rows over a live destination holding
     /// `old_rows` generation-1 rows; readers are stepped at every gate
-    RestoreLive { wal: bool, old_rows: u32, new_rows: u32, reads_per_gate: u8, long_lived: bool },
+    RestoreLive {
+        wal: bool,
+        old_rows: u32,
+        new_rows: u32,
+        reads_per_gate: u8,
+        long_lived: bool,
+        /// the reader process is inside a read transaction (first half of the table read) when
+        /// the restore starts and finishes it (second half) afterwards
+        #[serde(default)]
+        txn_reader: bool,
+    },
 }
 
 fn vio(class: &str, detail: serde_json::Value) -> Violation {
@@ -76,6 +86,7 @@ pub fn generate(seed: u64) -> Vec<Ev> {
             new_rows: *r.pick(&[1u32, 40, 500, 2500]),
             reads_per_gate: if r.chance(0.8) { 1 } else { 2 },
             long_lived: r.chance(0.6),
+            txn_reader: r.chance(0.4),
         }];
     }
     let mut g = Gen::new(seed);
@@ -275,10 +286,10 @@ pub async fn run_events(seed: u64, events: &[Ev], base: &Path, tag: &str) -> R<R
     if part_b {
         for (i, ev) in events.iter().enumerate() {
             done.push(ev.clone());
-            if let Ev::RestoreLive { wal, old_rows, new_rows, reads_per_gate, long_lived } = ev {
+            if let Ev::RestoreLive { wal, old_rows, new_rows, reads_per_gate, long_lived, txn_reader } = ev {
                 stats.ev("RestoreLive");
                 stats.steps += 1;
-                if let Err(mut v) = restore_live(&dir, *wal, *old_rows, *new_rows, *reads_per_gate, *long_lived, &mut stats, &mut log).await? {
+                if let Err(mut v) = restore_live(&dir, *wal, *old_rows, *new_rows, *reads_per_gate, *long_lived, *txn_reader, &mut stats, &mut log).await? {
                     v.step = i + 1;
                     violation = Some(v);
                     break;
@@ -334,7 +345,7 @@ pub async fn run_events(seed: u64, events: &[Ev], base: &Path, tag: &str) -> R<R
             Ev::Subscribe { .. } => "S".into(),
             Ev::Backup { live, rollback } => format!("B{}{}", *live as u8, *rollback as u8),
             Ev::Restore { dst, flag } => format!("R{dst}{flag}"),
-            Ev::RestoreLive { wal, old_rows, new_rows, long_lived, reads_per_gate } => format!("L{}{old_rows}-{new_rows}{}{reads_per_gate}", *wal as u8, *long_lived as u8),
+            Ev::RestoreLive { wal, old_rows, new_rows, long_lived, reads_per_gate, txn_reader } => format!("L{}{old_rows}-{new_rows}{}{reads_per_gate}{}", *wal as u8, *long_lived as u8, *txn_reader as u8),
         };
         fnv(&mut sh, s.as_bytes());
     }
@@ -741,6 +752,7 @@ impl Drop for Reader {
 pub fn reader_main(db: &str) {
     let stdin = std::io::stdin();
     let mut long: Option<Connection> = None;
+    let mut txn: Option<Connection> = None;
     fn read(conn: &Connection) -> Result<String, rusqlite::Error> {
         let (n, lo, hi): (i64, Option<i64>, Option<i64>) = conn.query_row("SELECT count(*), min(gen), max(gen) FROM g", [], |r| Ok((r.get(0)?, r.get(1)?, r.get(2)?)))?;
         let s: i64 = conn.query_row("SELECT COALESCE(sum(length(pad)), 0) FROM g", [], |r| r.get(0))?;
@@ -760,6 +772,40 @@ pub fn reader_main(db: &str) {
                 }
                 Err(e) => format!("err {e}"),
             },
+            cmd if cmd.starts_with("begin ") || cmd.starts_with("finish ") => {
+                // a read transaction spanning the restore: first half of the table, later the rest
+                let split: i64 = cmd.split(' ').nth(1).and_then(|x| x.parse().ok()).unwrap_or(0);
+                if cmd.starts_with("begin ") {
+                    match Connection::open_with_flags(db, OpenFlags::SQLITE_OPEN_READ_WRITE) {
+                        Ok(c) => {
+                            let _ = c.busy_timeout(std::time::Duration::from_millis(0));
+                            let r = c.execute_batch("BEGIN").and_then(|_| {
+                                c.query_row("SELECT count(*), COALESCE(min(gen), 0), COALESCE(max(gen), 0) FROM g WHERE id < ?", [split], |r| {
+                                    Ok(format!("ok {} {} {}", r.get::<_, i64>(0)?, r.get::<_, i64>(1)?, r.get::<_, i64>(2)?))
+                                })
+                            });
+                            txn = Some(c);
+                            r.unwrap_or_else(|e| format!("err {e}"))
+                        }
+                        Err(e) => format!("err {e}"),
+                    }
+                } else {
+                    match txn.take() {
+                        Some(c) => {
+                            let r = c.query_row("SELECT count(*), COALESCE(min(gen), 0), COALESCE(max(gen), 0) FROM g WHERE id >= ?", [split], |r| {
+                                Ok(format!("ok {} {} {}", r.get::<_, i64>(0)?, r.get::<_, i64>(1)?, r.get::<_, i64>(2)?))
+                            });
+                            let ic: Result<String, _> = c.query_row("PRAGMA quick_check", [], |r| r.get(0));
+                            let _ = c.execute_batch("COMMIT");
+                            match (r, ic) {
+                                (Ok(a), Ok(i)) => format!("{a} {}", i.replace(' ', "_")),
+                                (Err(e), _) | (_, Err(e)) => format!("err {e}"),
+                            }
+                        }
+                        None => "err no-transaction".into(),
+                    }
+                }
+            }
             "long" => match long.as_ref() {
                 Some(c) => read(c).unwrap_or_else(|e| format!("err {e}")),
                 None => "err not-open".into(),
@@ -826,7 +872,7 @@ fn judge(ans: &str, old: (i64, i64), new: (i64, i64)) -> Result<&'static str, St
 }
 
 #[allow(clippy::too_many_arguments)]
-async fn restore_live(dir: &Path, wal: bool, old_rows: u32, new_rows: u32, reads_per_gate: u8, long_lived: bool, stats: &mut Stats, log: &mut Vec<String>) -> R<Result<(), Violation>> {
+async fn restore_live(dir: &Path, wal: bool, old_rows: u32, new_rows: u32, reads_per_gate: u8, long_lived: bool, txn_reader: bool, stats: &mut Stats, log: &mut Vec<String>) -> R<Result<(), Violation>> {
     let dst = dir.join("live.db");
     let src = dir.join("new.db");
     make_gen_db(&dst, wal, 1, old_rows)?;
@@ -854,11 +900,26 @@ async fn restore_live(dir: &Path, wal: bool, old_rows: u32, new_rows: u32, reads
             Err(e) => return Ok(Err(vio("read-before-restore-wrong", json!({"error": e})))),
         }
     }
+    let split = (old_rows / 2) as i64;
+    let mut first_half: Option<(i64, i64, i64)> = None;
+    if txn_reader {
+        stats.fault("reader-inside-a-read-transaction-when-the-restore-starts");
+        let a = reader.ask(&format!("begin {split}"))?;
+        if let Some(rest) = a.strip_prefix("ok ") {
+            let p: Vec<i64> = rest.split(' ').filter_map(|x| x.parse().ok()).collect();
+            if p.len() == 3 {
+                first_half = Some((p[0], p[1], p[2]));
+            }
+        }
+        if first_half.is_none() {
+            return Ok(Err(vio("read-before-restore-wrong", json!({"answer": a, "reader": "transaction"}))));
+        }
+    }
     for g in ["restore-locked", "restore-copied", "restore-done"] {
         verif::gate_arm(g);
     }
     let (s2, d2) = (src.clone(), dst.clone());
-    let h = tokio::task::spawn_blocking(move || klukai_types::sqlite3_restore::restore(&s2, &d2, std::time::Duration::from_secs(5)));
+    let h = tokio::task::spawn_blocking(move || klukai_types::sqlite3_restore::restore(&s2, &d2, std::time::Duration::from_millis(if txn_reader { 700 } else { 5000 })));
     let mut result = None;
     let gates = ["restore-locked", "restore-copied", "restore-done"];
     let mut gi = 0;
@@ -911,6 +972,32 @@ async fn restore_live(dir: &Path, wal: bool, old_rows: u32, new_rows: u32, reads
     }
     let res = result.unwrap();
     log.push(format!("restore_live wal={wal} {old_rows}->{new_rows}: {:?} reads: {seen:?}", res.as_ref().map(|r| (r.old_len, r.new_len)).map_err(|e| e.to_string())));
+    if let Some((n1, lo1, hi1)) = first_half {
+        // the transaction that was open across the restore: what it reads now together with
+        // what it read before must be one database (or it is refused)
+        let a = reader.ask(&format!("finish {split}"))?;
+        stats.oracle_checks += 1;
+        if let Some(rest) = a.strip_prefix("ok ") {
+            let p: Vec<&str> = rest.split(' ').collect();
+            let n2: i64 = p[0].parse().unwrap_or(-1);
+            let lo2: i64 = p[1].parse().unwrap_or(-1);
+            let hi2: i64 = p[2].parse().unwrap_or(-1);
+            let ic = p.get(3).copied().unwrap_or("");
+            let gens: std::collections::BTreeSet<i64> = [lo1, hi1, lo2, hi2].into_iter().filter(|g| *g != 0).collect();
+            let total = n1 + n2;
+            let one_db = gens.len() <= 1 && ic == "ok" && (total == old.0 && gens.iter().all(|g| *g == old.1) || total == new.0 && gens.iter().all(|g| *g == new.1) || total == 0);
+            if !one_db {
+                return Ok(Err(vio(
+                    "read-transaction-open-across-the-restore-saw-a-mixture",
+                    json!({"first_half": [n1, lo1, hi1], "second_half": [n2, lo2, hi2], "quick_check": ic, "old": [old.0, old.1], "new": [new.0, new.1], "wal": wal,
+                           "restore_result": res.as_ref().map(|_| "ok").map_err(|e| e.to_string())}),
+                )));
+            }
+            stats.probe("c19.transaction-across-restore.consistent");
+        } else {
+            stats.probe("c19.transaction-across-restore.refused");
+        }
+    }
     // after the restore: every read succeeds within a few attempts and shows entirely the
     // new database (or, if the restore failed, entirely the old one)
     let want = if res.is_ok() { "new" } else { "old" };
